@@ -697,9 +697,10 @@ Definition wf_op (o : op) : Prop :=
   match o with
   | OHeaders _ now hs => T now /\ Forall U hs /\ zlen hs < memCap P
   | ORollback _ => False
+  | OHeadersF _ _ _ _ => False     (* store write faults: S2/Faults.v (wf_op_f, step_spec_f) *)
   | _ => True
   end.
-Definition op_size (o : op) : Z := match o with OHeaders _ _ hs => zlen hs | _ => 0 end.
+Definition op_size (o : op) : Z := match o with OHeaders _ _ hs | OHeadersF _ _ hs _ => zlen hs | _ => 0 end.
 Definition ops_size (ops : list op) : Z := foldr (fun o n => op_size o + n) 0 ops.
 
 Definition StepRel (s : state) (o : op) (s' : state) : Prop :=
@@ -711,7 +712,7 @@ Definition StepRel (s : state) (o : op) (s' : state) : Prop :=
 Lemma step_spec s o : Inv s -> wf_op o -> zlen (chain s) + op_size o <= LIMIT ->
   Inv (step P s o) /\ StepRel s o (step P s o).
 Proof.
-  intros HI Hwf Hlim. destruct o as [p now hs|p now x|p st la full|p|prev fs stop|h|]; cbn [step StepRel wf_op op_size] in *.
+  intros HI Hwf Hlim. destruct o as [p now hs|p now x|p st la full|p|prev fs stop|h| |p now hs k]; cbn [step StepRel wf_op op_size] in *.
   - destruct Hwf as (HT & HUs & Hlen). by apply handle_headers_spec.
   - split; [eapply Inv_core; [done|apply core_eq_handle_inv]|apply (core_eq_handle_inv now p x s)].
   - split; [eapply Inv_core; [done|]|].
@@ -721,6 +722,7 @@ Proof.
   - by apply write_cf_Inv.
   - done.
   - by apply restart_Inv.
+  - done.
 Qed.
 
 Lemma upto_cp_len hs : forall base, zlen (upto_cp base hs) <= zlen hs.
@@ -747,7 +749,7 @@ Lemma step_len s o : Inv s -> wf_op o -> zlen (chain s) + op_size o <= LIMIT ->
   zlen (chain (step P s o)) <= zlen (chain s) + op_size o.
 Proof.
   intros HI Hwf Hlim. destruct (step_spec s o HI Hwf Hlim) as [_ Hr].
-  destruct o; cbn [StepRel op_size] in *; try (rewrite Hr; lia). by eapply Trans_len.
+  destruct o; cbn [StepRel op_size wf_op] in *; try (rewrite Hr; lia); try (exfalso; exact Hwf). by eapply Trans_len.
 Qed.
 
 Lemma run_Inv ops : forall s, Inv s -> Forall wf_op ops -> zlen (chain s) + ops_size ops <= LIMIT ->
@@ -756,7 +758,7 @@ Proof.
   unfold run. induction ops as [|o ops IH]; intros s HI Hwf Hlim; cbn [fold_left ops_size foldr] in *; [split; [done|lia]|].
   apply Forall_cons in Hwf as [Hwo Hwf]. fold (ops_size ops) in *.
   assert (Hnn : 0 <= ops_size ops).
-  { clear. induction ops as [|o ops IH]; cbn; [lia|]. fold (ops_size ops). destruct o; cbn; try lia. pose proof (zlen_nonneg hs). lia. }
+  { clear. induction ops as [|o ops IH]; cbn; [lia|]. fold (ops_size ops). destruct o; cbn; try lia; pose proof (zlen_nonneg hs); lia. }
   pose proof (step_len s o HI Hwo ltac:(lia)) as Hl.
   destruct (step_spec s o HI Hwo ltac:(lia)) as [HI' _].
   destruct (IH _ HI' Hwf ltac:(lia)) as [H1 H2]. split; [done|lia].
